@@ -11,7 +11,12 @@ open Rangers
 
 def ascii (s : String) : Bytes := s.toList.map (fun c => UInt8.ofNat c.toNat)
 
-def decNat (n : Nat) : Bytes := ascii (toString n)
+/-- Decimal digits, most significant first (`strconv.FormatUint`); `fuel` bounds the digit count. -/
+def decNatF : Nat → Nat → Bytes
+  | 0, _ => []
+  | f + 1, n => if n < 10 then [UInt8.ofNat (48 + n)] else decNatF f (n / 10) ++ [UInt8.ofNat (48 + n % 10)]
+
+def decNat (n : Nat) : Bytes := decNatF (n + 1) n
 
 def pad0 (w : Nat) (n : Nat) : Bytes :=
   let d := decNat n
